@@ -28,18 +28,28 @@ REQUIRED_THEOREMS = [
     "Acn.C17.select_error_of_count_ne_one", "Acn.C17.get_tariff_spec", "Acn.C17.get_tariff_seconds_spec",
     "Acn.C17.tariff_total_of_table", "Acn.C17.getTariffs_eq_map", "Acn.C17.interface_prices_aligned",
     "Acn.C17.interface_demand_aligned", "Acn.C17.energy_cost_def", "Acn.C17.demand_charge_def",
-] + [f"Acn.C17.{t}_{f}" for f in FILES for t in ("loads", "total_unambiguous", "breakpoints_ok", "tariff_total")]
+    "Acn.C17.decimal_rounding_bound", "Acn.C17.decimal_hour_close", "Acn.C17.decimal_no_flip",
+    "Acn.C17.get_tariff_at_spec", "Acn.C17.getTariffsUs_eq_map", "Acn.C17.getTariffs_eq_getTariffsUs",
+] + [f"Acn.C17.{t}_{f}" for f in FILES
+     for t in ("loads", "total_unambiguous", "breakpoints_ok", "tariff_total", "tariff_spec")]
 BUDGET = {"quick": 120, "thorough": 600, "search": 120}
 TRUSTED = [
     "Python datetime/timedelta: (month, day, weekday, h, m, s) of an instant and start + t·period "
     "(also compared with AcnModel/Calendar.lean on every instant)",
-    "CPython decimal.Decimal (prec 28, half-even): compared digit for digit with the model's Dec arithmetic "
-    "for all 86 400 seconds of the day on every run; the no-flip statement is kernel-checked for every whole "
-    "minute and ±1 s of every half hour and executed by the driver for all 86 400 seconds",
+    "CPython decimal.Decimal (prec 28, half-even) behaves like the model's Dec arithmetic: compared digit for "
+    "digit for all 86 400 seconds of the day on every run (the no-flip theorem about the model is proved for "
+    "all 86 400 seconds: decimal_no_flip)",
+    "Python datetime arithmetic on timezone-aware datetimes and timedelta(minutes=float) (wall-clock stepping, "
+    "microsecond rounding) — inputs of the model",
     "json module; numpy dot/max in energy_cost / demand_charge (1e-9 slack)",
 ]
 ASSUMPTIONS = [
-    "instants are naive datetimes with whole seconds (microseconds are ignored by the code and floored here)",
+    "an instant is the wall-clock reading (year … second) of the datetime handed to the tariff; the code never "
+    "consults tzinfo, so a timezone-aware datetime is priced by its own wall clock (the same absolute instant "
+    "expressed in another zone gets that zone's wall-clock price) and get_tariffs steps in un-normalised wall-clock "
+    "time across a DST change (Python arithmetic on aware datetimes); microseconds are ignored (floor to the second)",
+    "periods: any timedelta step for get_tariffs (ints, floats such as 2.5 or 0.01 min, negative); Interface / "
+    "energy_cost theorems are for whole-minute periods",
     "aggregate power (acnsim.aggregate_power) is an input of the cost theorems (its definition is C18)",
     "cost theorems are over an ordered field; the implementation computes in doubles",
 ]
@@ -63,6 +73,31 @@ def dt(t: int) -> datetime:
 
 def ep(d: datetime) -> int:
     return (d.replace(microsecond=0) - EPOCH) // timedelta(seconds=1)
+
+
+def _tzinfo(tz):
+    from datetime import timezone
+    if tz is None:
+        return None
+    if tz[0] in "+-":
+        hh, mm = tz[1:].split(":")
+        off = timedelta(hours=int(hh), minutes=int(mm))
+        return timezone(off if tz[0] == "+" else -off)
+    import pytz
+    return pytz.timezone(tz)
+
+
+def vec_start(case, aware=True):
+    """the datetime handed to get_tariffs (aware if the case names a zone) / its wall clock"""
+    naive = dt(case["start"]).replace(microsecond=case.get("us", 0))
+    tz = _tzinfo(case.get("tz")) if aware else None
+    if tz is None:
+        return naive
+    return tz.localize(naive) if hasattr(tz, "localize") else naive.replace(tzinfo=tz)
+
+
+def vec_period(case):
+    return case.get("fperiod", case["period"])
 
 
 def _years14():
@@ -211,6 +246,17 @@ def corpus():
     out.append({"t": "vec", "file": "sce_tou_ev_4_march_2019", "start": ep(datetime(2019, 12, 31, 22, 0)), "us": 0, "n": 30, "period": 15})
     out.append({"t": "vec", "file": "sce_tou_ev_8_june_2019", "start": ep(datetime(2020, 5, 31, 20, 30)), "us": 250000, "n": 50, "period": 7})
     out.append({"t": "vec", "file": "sce_tou_ev_8_oct_2018", "start": ep(datetime(1969, 12, 31, 23, 0)), "us": 0, "n": 5, "period": 60})
+    # timezone-aware starts across DST changes (spring forward 2019-03-10, fall back 2019-11-03, Berlin 2020-03-29)
+    out.append({"t": "vec", "file": "sce_tou_ev_4_march_2019", "start": ep(datetime(2019, 3, 10, 0, 30)), "us": 0, "n": 12, "period": 60, "tz": "America/Los_Angeles"})
+    out.append({"t": "vec", "file": "sce_tou_ev_4_march_2019", "start": ep(datetime(2019, 11, 3, 0, 30)), "us": 0, "n": 30, "period": 15, "tz": "America/Los_Angeles"})
+    out.append({"t": "vec", "file": "pge_a10_tou_aug_2019", "start": ep(datetime(2020, 3, 29, 1, 0)), "us": 0, "n": 40, "period": 15, "tz": "Europe/Berlin"})
+    out.append({"t": "vec", "file": "pge_a10_tou_aug_2019", "start": ep(datetime(2019, 7, 1, 19, 0)), "us": 0, "n": 6, "period": 60, "tz": "UTC"})
+    out.append({"t": "vec", "file": "sce_tou_ev_8_june_2019", "start": ep(datetime(2019, 7, 1, 15, 55)), "us": 500000, "n": 8, "period": 1, "fperiod": 2.5, "tz": "+05:30"})
+    out.append({"t": "vec", "file": "sce_tou_ev_8_june_2019", "start": ep(datetime(2019, 7, 1, 15, 59, 59)), "us": 999000, "n": 9, "period": 1, "fperiod": 0.01})
+    out.append({"t": "vec", "file": "sce_tou_ev_8_june_2019", "start": ep(datetime(2019, 7, 1, 16, 0, 30)), "us": 0, "n": 9, "period": 1, "fperiod": -0.125})
+    # microseconds just below / above a breakpoint
+    out.append({"t": "instants", "file": "sce_tou_ev_4_march_2019", "us": 999999,
+                "ts": [ep(datetime(2019, 7, 1, 11, 59, 59)), ep(datetime(2019, 7, 1, 12, 0, 0)), ep(datetime(2019, 12, 31, 23, 59, 59))]})
     return out
 
 
@@ -225,8 +271,19 @@ def _gen_vec(rng):
         y = rng.choice(YEARS14)
         mo, d = rng.choice(sorted(season_boundary_days(f) | {(12, 31), (2, 28), (1, 1)}))
         start = ep(datetime(y, mo, d)) + rng.choice([0, 86399, 86400 - 3600, 20 * 3600, rng.randrange(86400)])
-    return {"t": "vec", "file": f, "start": start, "us": rng.choice([0, 0, 0, 0, 0, 0, 0, 0, 1, 999999]),
+    case = {"t": "vec", "file": f, "start": start, "us": rng.choice([0, 0, 0, 0, 0, 0, 0, 0, 1, 999999]),
             "n": rng.choice([0, 1, 2, rng.randint(3, 60), rng.randint(60, 400)]), "period": rng.choice(PERIODS)}
+    r = rng.random()
+    if r < 0.25:
+        # timezone-aware start, often the night of a DST change
+        case["tz"] = rng.choice(["America/Los_Angeles", "America/Los_Angeles", "UTC", "Europe/Berlin", "+05:30", "-08:00"])
+        if rng.random() < 0.6:
+            y, mo, d = rng.choice([(2019, 3, 10), (2019, 11, 3), (2020, 3, 8), (2020, 11, 1), (2020, 3, 29), (2020, 10, 25)])
+            case["start"] = ep(datetime(y, mo, d)) + rng.choice([0, 1800, 3600, 5400, 7199, -3600])
+    if 0.15 < r < 0.4:
+        # periods that are not whole minutes / do not divide 60 (timedelta(minutes=float))
+        case["fperiod"] = rng.choice([2.5, 0.5, 1 / 3, 0.01, 0.1, 90.5, 7.25, -5, 1e-5])
+    return case
 
 
 def _gen_iface(rng):
@@ -375,11 +432,12 @@ def run_impl(case):
         ts = instants_of(case)
         # the demand charge depends on the date only: asked at the first instant of every day
         first = _first_of_day(ts)
-        return {"rates": [_call(tar.get_tariff, dt(x)) for x in ts],
-                "demands": [_call(tar.get_demand_charge, dt(x)) if i in first else None for i, x in enumerate(ts)]}
+        us = case.get("us", 0)
+        return {"rates": [_call(tar.get_tariff, dt(x).replace(microsecond=us)) for x in ts],
+                "demands": [_call(tar.get_demand_charge, dt(x).replace(microsecond=us)) if i in first else None
+                            for i, x in enumerate(ts)]}
     if t == "vec":
-        start = dt(case["start"]).replace(microsecond=case["us"])
-        return {"prices": _call(tar.get_tariffs, start, case["n"], case["period"])}
+        return {"prices": _call(tar.get_tariffs, vec_start(case), case["n"], vec_period(case))}
     if t == "minutes":
         import multiprocessing as mp
         with mp.get_context("fork").Pool(min(12, os.cpu_count() or 1)) as pool:
@@ -450,6 +508,11 @@ def model_request(case):
         ts = instants_of(case)
         return {"op": "instants", "file": case["file"], "ts": ts, "py": [_py_fields(x) for x in ts]}
     if t == "vec":
+        if "fperiod" in case or case.get("tz") or case.get("us"):
+            # general form: microsecond start (wall clock of the datetime handed over), timedelta step in µs
+            step = timedelta(minutes=vec_period(case))
+            return {"op": "tariffs_us", "file": case["file"], "start_us": case["start"] * 10 ** 6 + case.get("us", 0),
+                    "n": case["n"], "step_us": step // timedelta(microseconds=1)}
         return {"op": "tariffs", "file": case["file"], "start": case["start"], "n": case["n"], "period": case["period"]}
     if t == "minutes":
         d0 = ep(datetime(case["year"], 1, 1)) // 86400
@@ -635,8 +698,10 @@ def oracle(case, obs):
             if dm is not None:
                 _check_instant(name, dt(x), dm, fails, "get_demand_charge", True)
     elif t == "vec":
-        start = dt(case["start"]).replace(microsecond=case["us"])
-        _check_vector(name, start, case["n"], case["period"], obs["prices"], fails, f"get_tariffs({start}, {case['n']}, {case['period']})")
+        # the statement: element k is the price at the WALL CLOCK of the datetime handed over + k·period
+        start = vec_start(case, aware=False)
+        _check_vector(name, start, case["n"], vec_period(case), obs["prices"], fails,
+                      f"get_tariffs({vec_start(case)}, {case['n']}, {vec_period(case)})")
     elif t == "minutes":
         d = datetime(case["year"], 1, 1)
         for day in obs["days"]:
@@ -700,7 +765,7 @@ def features(case, obs):
         out.append(f"calendar_type:jan1wd{datetime(case['year'], 1, 1).weekday()}_{'leap' if case['year'] % 4 == 0 else 'common'}")
         out.append("errors:" + str(sum(isinstance(r, str) for r in obs["rates"]) > 0))
     if t == "vec":
-        out.append("period:" + str(case["period"]))
+        out.append("period:" + str(vec_period(case) if "fperiod" not in case else "float"))
         out.append("vec_result:" + ("error:" + obs["prices"] if isinstance(obs["prices"], str) else "ok"))
         if case["n"] and (case["start"] % 86400) + case["n"] * case["period"] * 60 > 86400:
             out.append("vec_crosses_midnight")
@@ -710,6 +775,10 @@ def features(case, obs):
             out.append("before_1970")
         if case["us"]:
             out.append("microseconds")
+        if case.get("tz"):
+            out.append("tz:" + case["tz"])
+        if "fperiod" in case:
+            out.append("float_period:" + str(round(case["fperiod"], 5)))
     if t == "iface":
         out.append("period:" + str(case["period"]))
         out.append("cost_result:" + ("error" if isinstance(obs["energy_cost"], str) else "ok"))
